@@ -34,11 +34,18 @@ def extract_playback(workdir, res, prelude, rust_text, tables_rs, loops, timeout
     tests = [t for t in tests if "concrete_playback_run" in t]
     # Kani also emits playback tests for satisfied cover properties: those are witnesses, not failures
     tests = [t for t in tests if not re.search(r"Check for `cover`", t)]
+    # drop Kani's doc comment (it wraps long descriptions onto lines without `///`, which does not compile)
+    tests = [t[t.index("#[test]"):] for t in tests if "#[test]" in t]
     return d, crate, tests
 
 
-def native_run(crate, test_name, release, log):
-    """Runs one playback test natively with the real libm.  Returns 'failed' | 'ok' | 'error'."""
+def native_run_all(crate, release, log):
+    """Runs every playback test of the crate natively with the real libm.
+    Returns {test name: 'failed' | 'ok' | 'invalid' | 'error'}:
+      failed  = the harness body panicked (assertion, overflow, index, unwrap ...)
+      ok      = no panic, or only Kani's end-of-playback bookkeeping panic (values that only stubs consumed)
+      invalid = a kani::assume of the harness does not hold for these values (only possible for neighbourhood variants)
+    """
     kh = kani_home()
     flags = ["-Zunstable-options", "-Ztrim-diagnostic-paths=no", "-Zhuman_readable_cgu_names",
              "-Zalways-encode-mir", "--cfg=kani", "-Zcrate-attr=feature(register_tool)",
@@ -51,57 +58,103 @@ def native_run(crate, test_name, release, log):
     e["CARGO_ENCODED_RUSTFLAGS"] = "\x1f".join(flags)
     e["RUSTC"] = kh + "/bin/kani-compiler"
     e["CARGO_TERM_PROGRESS_WHEN"] = "never"
+    e["RUST_BACKTRACE"] = "0"
     # shared across replays (dependencies incl. /repo are built once; cargo serialises access)
     e["CARGO_TARGET_DIR"] = os.path.join(core.WORK, "native-replay-target")
     cmd = [kh + "/toolchain/bin/cargo", "test", "--lib", "--target", "x86_64-unknown-linux-gnu", "-Zhost-config",
            "-Ztarget-applies-to-host", "--config=host.rustflags=[\"--cfg=kani_host\"]"]
     if release:
         cmd.append("--release")
-    cmd += ["--", test_name, "--exact", "--test-threads", "1"]
+    cmd += ["--", "kani_concrete_playback_", "--test-threads", "1"]
     with open(log, "ab") as f:
         f.write(("\n$ " + " ".join(cmd) + "\n").encode())
         f.flush()
         try:
-            p = subprocess.run(cmd, cwd=crate, stdout=f, stderr=subprocess.STDOUT, env=e, timeout=1800)
+            subprocess.run(cmd, cwd=crate, stdout=f, stderr=subprocess.STDOUT, env=e, timeout=2400)
         except subprocess.TimeoutExpired:
-            return "error"
+            return {}
     out = open(log, errors="replace").read()
     tail = out[out.rfind("$ "):]
-    # The harness body ran to completion without any failure if the only panic is Kani's
-    # end-of-playback bookkeeping (values consumed by stubs in the model are left over natively).
-    if "there were still these concrete values left over" in tail:
-        return "ok"
-    if re.search(r"Not enough det vals|ran out of concrete values", tail, re.I):
-        return "error"
-    if re.search(r"test result: FAILED", tail) or re.search(r"\.\.\. FAILED", tail):
-        return "failed"
-    if re.search(r"test result: ok\. 1 passed", tail):
-        return "ok"
-    # aborts (panic=abort is not used here, but a SIGABRT/segfault counts as a failure of the test)
-    if re.search(r"signal: \d+", tail):
-        return "failed"
-    return "error"
+    res = {}
+    for m in re.finditer(r"^test (\S+) \.\.\. (\w+)", tail, re.M):
+        nm, st = m.group(1).split("::")[-1], m.group(2)
+        res[nm] = "ok" if st == "ok" else "failed"
+    # classify the failed ones by their panic message
+    for m in re.finditer(r"^---- (\S+) stdout ----\n(.*?)(?=^---- |^failures:|\Z)", tail, re.M | re.S):
+        nm, body = m.group(1).split("::")[-1], m.group(2)
+        if res.get(nm) != "failed":
+            continue
+        if "there were still these concrete values left over" in body:
+            res[nm] = "ok"
+        elif "`kani::assume` should always hold" in body:
+            res[nm] = "invalid"
+        elif re.search(r"Not enough det vals|ran out of concrete values", body, re.I):
+            res[nm] = "error"
+    return res
 
 
-def replay_tests(d, crate, tests, harness_name):
-    """Appends the tests to gen.rs and runs them natively in dev and release profiles."""
+def make_variants(test_text, base_name, count, seed):
+    """Neighbourhood of a solver counterexample: the same harness inputs with every 1- and 2-byte value
+    redrawn (message / LLR-mantissa values; 8-byte values are kept).  Used only when the solver's own values do
+    not reproduce natively: a SURROGATE-model difference may need other magnitudes to show with the real libm."""
+    import random
+    rnd = random.Random(seed)
+    lines = test_text.splitlines()
+    out = []
+    for k in range(count):
+        new = []
+        for ln in lines:
+            m = re.match(r"^(\s*)vec!\[([0-9, ]+)\],\s*$", ln)
+            if m:
+                vals = [v for v in m.group(2).replace(" ", "").split(",") if v]
+                if len(vals) == 1:
+                    if k == 0:
+                        b = 40
+                    elif k == 1:
+                        b = rnd.choice([8, 16, 24, 100, 156, 232])
+                    else:
+                        b = rnd.choice(list(range(1, 128)) + list(range(129, 256)))
+                    ln = "%svec![%d]," % (m.group(1), b)
+                elif len(vals) == 2:
+                    v = rnd.randint(-2000, 2000) & 0xffff
+                    ln = "%svec![%d, %d]," % (m.group(1), v & 0xff, v >> 8)
+            new.append(ln)
+        t = "\n".join(new).replace(base_name, "%s_v%d" % (base_name, k))
+        out.append(t)
+    return out
+
+
+def replay_tests(d, crate, tests, harness_name, variants=24, seed=0):
+    """Appends the tests to gen.rs and runs them natively in dev and release profiles; if none reproduces, a
+    neighbourhood of each counterexample is tried as well."""
     gen = os.path.join(crate, "src", "gen.rs")
-    names = []
-    body = open(gen).read()
+    body0 = open(gen).read()
+    named = []
     for i, t in enumerate(tests):
         m = re.search(r"fn (kani_concrete_playback_\w+)\(", t)
         if not m:
             continue
         nm = "%s_%d" % (m.group(1), i)
-        t = t.replace(m.group(1), nm)
-        names.append(nm)
-        body += "\n" + t + "\n"
-    open(gen, "w").write(body)
+        named.append((nm, t.replace(m.group(1), nm)))
     log = os.path.join(d, "native_replay.log")
-    outcomes = []
-    for nm in names:
-        o = {"test": nm}
-        o["dev"] = native_run(crate, "gen::" + nm, False, log)
-        o["release"] = native_run(crate, "gen::" + nm, True, log)
-        outcomes.append(o)
-    return names, outcomes, log
+
+    def run(batch):
+        open(gen, "w").write(body0 + "\n" + "\n".join(t for _, t in batch) + "\n")
+        dev = native_run_all(crate, False, log)
+        rel = native_run_all(crate, True, log)
+        return [{"test": nm, "dev": dev.get(nm, "error"), "release": rel.get(nm, "error")} for nm, _ in batch]
+
+    outcomes = run(named) if named else []
+    if named and not any(o["dev"] == "failed" or o["release"] == "failed" for o in outcomes) and variants:
+        vb = []
+        for nm, t in named[:3]:
+            for vt in make_variants(t, nm, variants, seed):
+                vn = re.search(r"fn (kani_concrete_playback_\w+)\(", vt).group(1)
+                vb.append((vn, vt))
+        vo = run(vb)
+        for o in vo:
+            o["variant"] = True
+        outcomes += [o for o in vo if o["dev"] == "failed" or o["release"] == "failed"][:3]
+        outcomes.append({"test": "neighbourhood", "tried": len(vb), "dev": "n/a", "release": "n/a",
+                         "invalid": sum(1 for o in vo if o["dev"] == "invalid")})
+    return [nm for nm, _ in named], outcomes, log
